@@ -166,6 +166,10 @@ func checkURIParse(w *core.Worker, u []byte) (accepted bool) {
 				u, at, u[sl:at], p.User.Get(u), p.User.Offs, p.Pass.Get(u), p.Pass.Offs, p.Host.Get(u), p.Host.Offs))
 			return true
 		}
+		if pw := p.Pass.Get(u); bytes.IndexByte(pw, ';') >= 0 || bytes.IndexByte(pw, '?') >= 0 {
+			fail("delimiter-in-password", fmt.Sprintf("ParseURI(%q): a ';' or '?' before the '@' belongs to the user part, but the password is %q (user %q)", u, pw, p.User.Get(u)))
+			return true
+		}
 	} else if pfNonZero(p.User) || pfNonZero(p.Pass) {
 		fail("user-without-at", fmt.Sprintf("ParseURI(%q): no '@' in the text but user=%q password=%q", u, p.User.Get(u), p.Pass.Get(u)))
 		return true
